@@ -1034,3 +1034,81 @@ Section AccountUnique.
     - right. exists f1, f2. split; [assumption | congruence].
   Qed.
 End AccountUnique.
+
+(* ================================================================================================
+   Histories on one validator instance and one storage: every step's verdict is a function of that step's inputs only,
+   so the accept-iff theorems hold at every step of every history, for every sequence of header-source answers
+   (failures and wrong headers included). *)
+Section HistoryProofs.
+  Variable node_hash : bytes -> bytes.
+  Variable decode : bytes -> res node.
+  Variable decode_account : bytes -> res (bytes * bytes).
+
+  Let verdict_of (ev : event) : res unit :=
+    validate_content node_hash decode decode_account (ev_header ev) (ev_req ev).
+
+  Lemma item_step_verdict st ev :
+    fst (snd (item_step node_hash decode decode_account st ev)) = verdict_of ev.
+  Proof.
+    destruct st as [vs s]. unfold item_step, validate_step, verdict_of.
+    destruct (validate_content node_hash decode decode_account (ev_header ev) (ev_req ev)) as [u|e|]; [|reflexivity|reflexivity].
+    destruct (put node_hash (ev_req ev)); reflexivity.
+  Qed.
+
+  Lemma run_history_verdicts evs : forall st,
+    map fst (snd (run_history node_hash decode decode_account st evs)) = map verdict_of evs.
+  Proof.
+    induction evs as [|ev rest IH]; intros st; cbn [run_history]; [reflexivity|].
+    pose proof (item_step_verdict st ev) as Hv.
+    destruct (item_step node_hash decode decode_account st ev) as [st' o]. cbn [snd] in Hv.
+    specialize (IH st'). destruct (run_history node_hash decode decode_account st' rest) as [st'' os].
+    cbn [snd map] in *. now rewrite Hv, IH.
+  Qed.
+
+  (* the verdict of the step after any prefix of earlier steps is the verdict of that item alone *)
+  Theorem history_step_independent pre ev post st :
+    nth_error (map fst (snd (run_history node_hash decode decode_account st (pre ++ ev :: post)))) (length pre)
+    = Some (verdict_of ev).
+  Proof.
+    rewrite run_history_verdicts, map_app. rewrite nth_error_app2 by (rewrite map_length; lia).
+    rewrite map_length, Nat.sub_diag. reflexivity.
+  Qed.
+
+  Theorem history_accept_iff evs : forall st,
+    Forall2 (fun ev o => fst o = Ok tt <-> content_ok node_hash decode decode_account (ev_header ev) (ev_req ev))
+            evs (snd (run_history node_hash decode decode_account st evs)).
+  Proof.
+    induction evs as [|ev rest IH]; intros st; cbn [run_history]; [constructor|].
+    pose proof (item_step_verdict st ev) as Hv.
+    destruct (item_step node_hash decode decode_account st ev) as [st' o]. cbn [snd] in Hv.
+    specialize (IH st'). destruct (run_history node_hash decode decode_account st' rest) as [st'' os].
+    cbn [snd] in *. constructor; [|assumption]. rewrite Hv. unfold verdict_of. apply validate_content_iff.
+  Qed.
+
+  (* the storage only ever gains the final node / the code of an item the validator accepted in that very step *)
+  Theorem history_store evs : forall vs s st' os,
+    run_history node_hash decode decode_account (vs, s) evs = (st', os) ->
+    forall id v, store_get (snd st') id = Some v ->
+      store_get s id = Some v \/
+      exists ev, In ev evs /\ ev_id ev = id /\
+                 content_ok node_hash decode decode_account (ev_header ev) (ev_req ev) /\
+                 put node_hash (ev_req ev) = Ok v /\ expected_stored (ev_req ev) = Some v.
+  Proof.
+    induction evs as [|ev rest IH]; intros vs s st' os H id v Hg; cbn [run_history] in H.
+    - inversion H; subst. now left.
+    - destruct (item_step node_hash decode decode_account (vs, s) ev) as [[vs1 s1] o] eqn:Ei.
+      destruct (run_history node_hash decode decode_account (vs1, s1) rest) as [st'' os'] eqn:Er.
+      inversion H; subst st'' os. clear H.
+      destruct (IH _ _ _ _ Er id v Hg) as [Hs1|(ev' & Hin & Hrest)].
+      + unfold item_step, validate_step in Ei.
+        destruct (validate_content node_hash decode decode_account (ev_header ev) (ev_req ev)) as [[]|e|] eqn:Ev.
+        * destruct (put node_hash (ev_req ev)) as [b|e|] eqn:Ep; inversion Ei; subst vs1 s1 o; try (now left).
+          unfold store_put in Hs1. cbn [store_get] in Hs1.
+          destruct (bytes_eqb (ev_id ev) id) eqn:Eid; [|now left].
+          apply bytes_eqb_eq in Eid. inversion Hs1; subst b. right. exists ev.
+          repeat split; [now left | assumption | now apply validate_content_iff | assumption | now apply put_stores_final with (node_hash := node_hash)].
+        * inversion Ei; subst. now left.
+        * inversion Ei; subst. now left.
+      + right. exists ev'. split; [now right | assumption].
+  Qed.
+End HistoryProofs.
